@@ -237,3 +237,135 @@ def finite_members(pattern, cap=200):
                 return None
         return res
     return walk(list(tree))
+
+
+# ---- over-approximating translation for inclusion checks ("every oracle string is matched by some pattern") --------------------------
+_ASCII_U = None
+
+
+def ascii_universe():
+    """the characters an ASCII text can contain: printable ASCII and ASCII white space"""
+    global _ASCII_U
+    if _ASCII_U is None:
+        _ASCII_U = z3.Union(z3.Range(' ', '~'), *[_char(ord(c)) for c in '\t\n\r\x0b\x0c'])
+    return _ASCII_U
+
+
+def prepare_loose(pattern):
+    """rewrites that make the `regex`-module pattern parseable by the stdlib parser: .NET-style named groups, duplicate group
+    names (legal in `regex`), \\p{L}"""
+    import collections
+    p = re.sub(r'\(\?<(?![=!])', '(?P<', pattern)
+    seen = collections.Counter()
+
+    def ren(m):
+        n = m.group(1)
+        seen[n] += 1
+        return '(?P<%s__%d>' % (n, seen[n]) if seen[n] > 1 else m.group(0)
+    p = re.sub(r'\(\?P<([A-Za-z_]\w*)>', ren, p)
+    p = p.replace('\\p{L}', 'a-zA-Z').replace('\\P{L}', '0-9')
+    return p
+
+
+def translate_loose(pattern, ignorecase=True):
+    """z3 regex R with: for every ASCII string s, (the real pattern fully matches s) implies s in L(R).  All zero-width assertions
+    (\\b, ^, $, look-ahead/behind) are dropped -- they can only *restrict* matching -- and every class is given its ASCII meaning.
+    Returns (R, number of assertions dropped).  Use only for claims of the form  oracle subset-of L(R)  /  for finding strings
+    outside L(R); the converse direction would be unsound."""
+    tree = sre_parse.parse(prepare_loose(pattern))
+    dropped = [0]
+    U = ascii_universe()
+
+    def cls(items):
+        neg = False
+        parts = []
+        for op, av in items:
+            if op is C.NEGATE:
+                neg = True
+            elif op is C.LITERAL:
+                parts += _lit(av, ignorecase)
+            elif op is C.RANGE:
+                lo, hi = av
+                hi = min(hi, 0x7e) if lo <= 0x7e else hi
+                if lo <= hi:
+                    parts.append(z3.Range(chr(lo), chr(hi)))
+                    if ignorecase:
+                        for a, b in (('a', 'z'), ('A', 'Z')):
+                            l2, h2 = max(lo, ord(a)), min(hi, ord(b))
+                            if l2 <= h2:
+                                parts.append(z3.Range(chr(l2).swapcase(), chr(h2).swapcase()))
+            elif op is C.CATEGORY:
+                parts.append(cat(av))
+            else:
+                raise NotEncodable('class item %s' % op)
+        r = parts[0] if len(parts) == 1 else (z3.Union(*parts) if parts else z3.Empty(z3.ReSort(z3.StringSort())))
+        return z3.Diff(U, r) if neg else r
+
+    def cat(av):
+        D = z3.Range('0', '9')
+        W = z3.Union(z3.Range('a', 'z'), z3.Range('A', 'Z'), D, _char(ord('_')))
+        S = z3.Union(*[_char(ord(c)) for c in ' \t\n\r\x0b\x0c'])
+        if av is C.CATEGORY_DIGIT:
+            return D
+        if av is C.CATEGORY_NOT_DIGIT:
+            return z3.Diff(U, D)
+        if av is C.CATEGORY_WORD:
+            return W
+        if av is C.CATEGORY_NOT_WORD:
+            return z3.Diff(U, W)
+        if av is C.CATEGORY_SPACE:
+            return S
+        if av is C.CATEGORY_NOT_SPACE:
+            return z3.Diff(U, S)
+        raise NotEncodable('category %s' % av)
+
+    def seq(items):
+        out = []
+        for op, av in items:
+            if op is C.LITERAL:
+                ls = _lit(av, ignorecase)
+                out.append(ls[0] if len(ls) == 1 else z3.Union(*ls))
+            elif op is C.NOT_LITERAL:
+                out.append(z3.Diff(U, z3.Union(*_lit(av, ignorecase)) if len(_lit(av, ignorecase)) > 1 else _lit(av, ignorecase)[0]))
+            elif op is C.IN:
+                out.append(cls(av))
+            elif op is C.ANY:
+                out.append(U)
+            elif op is C.BRANCH:
+                alts = [seq(a) for a in av[1]]
+                out.append(alts[0] if len(alts) == 1 else z3.Union(*alts))
+            elif op is C.SUBPATTERN:
+                out.append(seq(av[3]))
+            elif op in (C.MAX_REPEAT, C.MIN_REPEAT):
+                lo, hi, body = av
+                b = seq(body)
+                if hi is C.MAXREPEAT:
+                    out.append(z3.Concat(z3.Loop(b, lo, lo), z3.Star(b)) if lo > 0 else z3.Star(b))
+                else:
+                    out.append(z3.Loop(b, lo, hi))
+            elif op is C.AT or op in (C.ASSERT, C.ASSERT_NOT):
+                dropped[0] += 1
+            elif op is C.GROUPREF or op is C.GROUPREF_EXISTS:
+                raise NotEncodable('back-reference')
+            else:
+                raise NotEncodable('construct %s' % op)
+        if not out:
+            return z3.Re(z3.StringVal(''))
+        return out[0] if len(out) == 1 else z3.Concat(*out)
+    return seq(list(tree)), dropped[0]
+
+
+def not_included(oracle, patterns_re, timeout_ms=60000, extra=None):
+    """a string of L(oracle) outside the union of the given (loose) pattern languages, or None if there is none ('unsat'), or 'unknown'"""
+    s = z3.String('s')
+    sol = z3.Solver()
+    sol.set('timeout', timeout_ms)
+    sol.add(z3.InRe(s, oracle))
+    for r in patterns_re:
+        sol.add(z3.Not(z3.InRe(s, r)))
+    if extra is not None:
+        sol.add(extra(s))
+    r = sol.check()
+    if r == z3.sat:
+        return unescape(sol.model()[s].as_string())
+    return None if r == z3.unsat else 'unknown'
